@@ -5,7 +5,7 @@ def plan(tier):
                {"module": "PoaGraphMC", "cfg": "PoaGraphMC.cfg" if q else "PoaGraphMC_thorough.cfg",
                 "timeout": 2400, "workers": 8}],
         "families": [{"fam": "poa", "trace": "PoaTrace"}],
-        "required_obligations": ["same_query_in_another_mode_before_global", "aligner_copied_mid_history", "linear_exhaustive", "scoring_with_clip_penalties", "gap_zero", "length1_reference_edgeless", "identical_copies",
+        "required_obligations": ["match_score_near_the_top_of_i32", "same_query_in_another_mode_before_global", "aligner_copied_mid_history", "linear_exhaustive", "scoring_with_clip_penalties", "gap_zero", "length1_reference_edgeless", "identical_copies",
                                  "unrelated_sequences"],
         "rule": "linear graphs: every reference x query over {A,C} up to length 3 (quick) / 4 (thorough) x 6 scoring "
                 "schemes through global and global_banded (bandwidth = max length), random references/queries up "
